@@ -24,10 +24,10 @@ ALL_IDS = ["C%02d" % i for i in range(1, 21)]
 PLAN["C04"] = {
     "pkg": "c04",
     "tests": [
-        {"name": "TestDirectCalls", "quick": (1600000, 8), "thorough": (48000000, 16)},
-        {"name": "TestExprEval", "quick": (400000, 4), "thorough": (12000000, 16)},
-        {"name": "TestTemplates", "quick": (400000, 4), "thorough": (12000000, 16)},
-        {"name": "TestEngineTemplates", "quick": (16000, 8), "thorough": (800000, 16)},
+        {"name": "TestDirectCalls", "quick": (1600000, 8), "thorough": (32000000, 16)},
+        {"name": "TestExprEval", "quick": (400000, 4), "thorough": (8000000, 16)},
+        {"name": "TestTemplates", "quick": (400000, 4), "thorough": (8000000, 16)},
+        {"name": "TestEngineTemplates", "quick": (16000, 8), "thorough": (400000, 16)},
         {"name": "FuzzTemplate", "fuzz": True, "thorough": (FUZZ_SECONDS, 16)},
     ],
     "budget": {"quick": 600, "thorough": 5400},
@@ -100,9 +100,9 @@ MANIFEST_TEXT["C14"] = {
 PLAN["C11"] = {
     "pkg": "c11",
     "tests": [
-        {"name": "TestPrintReparse", "quick": (160000, 8), "thorough": (8000000, 16)},
-        {"name": "TestTemplateRewrite", "quick": (96000, 8), "thorough": (4000000, 16)},
-        {"name": "TestMigrationRename", "quick": (64000, 8), "thorough": (3200000, 16)},
+        {"name": "TestPrintReparse", "quick": (160000, 8), "thorough": (4000000, 16)},
+        {"name": "TestTemplateRewrite", "quick": (96000, 8), "thorough": (2000000, 16)},
+        {"name": "TestMigrationRename", "quick": (64000, 8), "thorough": (1600000, 16)},
     ],
     "budget": {"quick": 600, "thorough": 5400},
     "rule": "expression source drawn from the full Excellent3 grammar (all operators, unary-minus chains, parentheses, dot/index lookups "
@@ -217,9 +217,9 @@ SCENARIO_RULE = ("scenarios = generated world (1-4 flows of random graphs: cycle
 PLAN["C01"] = {
     "pkg": "c01",
     "tests": [
-        {"name": "TestSessionInvariants", "quick": (24000, 8), "thorough": (1600000, 16)},
-        {"name": "TestSubflowHierarchies", "quick": (16000, 8), "thorough": (1200000, 16)},
-        {"name": "TestNearValidDefinitions", "quick": (8000, 8), "thorough": (600000, 16)},
+        {"name": "TestSessionInvariants", "quick": (24000, 8), "thorough": (600000, 16)},
+        {"name": "TestSubflowHierarchies", "quick": (16000, 8), "thorough": (400000, 16)},
+        {"name": "TestNearValidDefinitions", "quick": (8000, 8), "thorough": (200000, 16)},
     ],
     "budget": {"quick": 600, "thorough": 5400},
     "rule": SCENARIO_RULE + "Oracle after every engine call that returned without Go error: the C01 validity predicate (session status, "
@@ -262,7 +262,7 @@ MANIFEST_TEXT["C05"] = {
 PLAN["C10"] = {
     "pkg": "c10",
     "tests": [
-        {"name": "TestRejectedResumes", "quick": (16000, 16), "thorough": (480000, 16)},
+        {"name": "TestRejectedResumes", "quick": (16000, 16), "thorough": (320000, 16)},
     ],
     "budget": {"quick": 600, "thorough": 5400},
     "rule": SCENARIO_RULE + "Resumes include deliberately unacceptable types for the current wait (and resumes of completed/failed sessions), "
@@ -284,7 +284,7 @@ MANIFEST_TEXT["C10"] = {
 PLAN["C02"] = {
     "pkg": "c02",
     "tests": [
-        {"name": "TestPersistenceTransparent", "quick": (9600, 16), "thorough": (640000, 16)},
+        {"name": "TestPersistenceTransparent", "quick": (9600, 16), "thorough": (480000, 16)},
     ],
     "budget": {"quick": 600, "thorough": 5400},
     "rule": SCENARIO_RULE + "Every step carries a drawn 'restart here' bit. Oracle: (a) after every sprint marshal(read(marshal(s))) == "
@@ -330,8 +330,8 @@ MANIFEST_TEXT["C03"] = {
 PLAN["C06"] = {
     "pkg": "c06",
     "tests": [
-        {"name": "TestModifierGroupMembership", "quick": (40000, 8), "thorough": (4000000, 16)},
-        {"name": "TestEngineGroupMembership", "quick": (12000, 8), "thorough": (800000, 16)},
+        {"name": "TestModifierGroupMembership", "quick": (40000, 8), "thorough": (3000000, 16)},
+        {"name": "TestEngineGroupMembership", "quick": (12000, 8), "thorough": (600000, 16)},
     ],
     "budget": {"quick": 600, "thorough": 5400},
     "rule": "worlds with 1-4 query-based groups drawn from 33 queries over every queryable property (name, language, URNs/schemes, created_on, "
@@ -354,8 +354,8 @@ MANIFEST_TEXT["C06"] = {
 PLAN["C07"] = {
     "pkg": "c07",
     "tests": [
-        {"name": "TestRouting", "quick": (80000, 8), "thorough": (6000000, 16)},
-        {"name": "TestRoutingInHistories", "quick": (12000, 8), "thorough": (800000, 16)},
+        {"name": "TestRouting", "quick": (80000, 8), "thorough": (2000000, 16)},
+        {"name": "TestRoutingInHistories", "quick": (12000, 8), "thorough": (300000, 16)},
     ],
     "budget": {"quick": 600, "thorough": 5400},
     "rule": "one-router flows (nodes after the router only send messages, so the router's context is still the context after the sprint): "
@@ -581,9 +581,9 @@ def c08_post(pid, jobs, out_dir, save_violation):
 PLAN["C08"] = {
     "pkg": "c08",
     "tests": [
-        {"name": "TestDeterminism", "quick": (1600, 12), "thorough": (96000, 16)},
-        {"name": "TestDigests", "same_seed": True, "quick": (600, 4), "thorough": (6000, 8)},
-        {"name": "TestLegacyMigrationDeterminism", "quick": (4000, 4), "thorough": (400000, 8)},
+        {"name": "TestDeterminism", "quick": (1600, 12), "thorough": (48000, 16)},
+        {"name": "TestDigests", "same_seed": True, "quick": (600, 4), "thorough": (3000, 8)},
+        {"name": "TestLegacyMigrationDeterminism", "quick": (4000, 4), "thorough": (200000, 8)},
     ],
     "post": c08_post,
     "budget": {"quick": 600, "thorough": 5400},
@@ -608,7 +608,7 @@ PLAN["C09"] = {
     "pkg": "c09",
     "race": True,
     "tests": [
-        {"name": "TestConcurrentSessions", "quick": (192, 16), "thorough": (9600, 16)},
+        {"name": "TestConcurrentSessions", "quick": (192, 16), "thorough": (3200, 16)},
     ],
     "budget": {"quick": 900, "thorough": 7200},
     "rule": "one shared SessionAssets per round (cold flow cache; flows stamped with older spec versions so that they are migrated lazily on "
